@@ -40,6 +40,9 @@ BIG = 10 ** 9
 COSTS10 = [(1.0, 1.0, 1.0), (0.5, 0.5, 0.5), (0.7, 0.7, 0.7), (3.0, 3.0, 4.0), (1.0, 2.0, 2.5), (2.0, 1.0, 1.5),
            (1.0, 1.0, 2.5), (0.1, 0.2, 0.3), (5.0, 1.0, 3.0), (1.0, 5.0, 3.0)]
 COSTS3 = [(0.5, 0.5, 0.5), (1.0, 2.0, 2.5), (0.3, 0.1, 0.2)]
+# one or two operations for free (a weighted distance all the same; the lower-triangular deletion trick must not let a zero cost
+# open the upper triangle - seeded change C01_D)
+COSTS0 = [(1.0, 0.0, 1.0), (0.0, 1.0, 1.0), (1.0, 1.0, 0.0), (0.0, 0.0, 1.0)]
 COSTS2 = [(0.7, 0.7, 0.7), (2.0, 1.0, 2.5)]
 
 # ---------------------------------------------------------------------------------------------------
@@ -563,6 +566,8 @@ def cases_spec(ctx, fn, want_empty_eos=False):
         yield from REGRESSION["C01.sm.post_prefix"]
     for alpha, L in _spaces(ctx):
         costs = COSTS10 if (ctx.quick or len(alpha) == 2 or L <= 4) else COSTS10[:6]
+        if L <= 3:
+            costs = costs + COSTS0
         for R in range(L + 1):
             for H in range(L + 1):
                 for eos, inc in _eos_settings(alpha):
@@ -583,7 +588,7 @@ def cases_spec(ctx, fn, want_empty_eos=False):
         for H in range(4):
             for eos in (5, -1):
                 for inc in (False, True):
-                    for c in COSTS3:
+                    for c in COSTS3 + COSTS0[:2]:
                         for ex in excl:
                             if R and H:
                                 yield dict(fn=fn, gen={"alpha": [0, 1, 2], "R": R, "H": H}, eos=eos, include_eos=inc, norm=bool(R % 2), batch_first=bool(H % 2),
